@@ -181,7 +181,11 @@ def make_harness(kind, n_ops, max_faulty):
                     root.fire(write(sock, data), ep.channel)
 
                 def do_close():
-                    root.fire(close(sock), ep.channel)
+                    # close of this connection, or of the whole server (no argument): both must wait for the buffer
+                    if g.flag('serverwide_close'):
+                        root.fire(close(), ep.channel)
+                    else:
+                        root.fire(close(sock), ep.channel)
 
                 def buffered():
                     return sum(len(x) for x in ep._buffers.get(sock, ())) if sock in ep._buffers else 0
@@ -339,8 +343,9 @@ def canaries():
     return [
         ('server-requeue-at-end', 'server', lambda: mutate(SK.Server, '_write', 'self._buffers[sock].appendleft(data[nbytes:])', 'self._buffers[sock].append(data[nbytes:])'), ['bytes-reordered-or-repeated']),
         ('server-tail-offset', 'server', lambda: mutate(SK.Server, '_write', 'data[nbytes:]', 'data[nbytes + 1:]'), ['bytes-lost', 'bytes-reordered-or-repeated']),
-        ('server-close-does-not-wait', 'server', lambda: mutate(SK.Server, 'close', 'if not self._buffers[sock]:', 'if True:'), ['bytes-lost', 'closed-before-buffer-written']),
+        ('server-close-does-not-wait', 'server', lambda: mutate(SK.Server, 'close', 'if not self._buffers.get(sock):', 'if True:'), ['bytes-lost', 'closed-before-buffer-written']),
         ('server-eintr-fatal-silent', 'server', lambda: mutate(SK.Server, '_write', 'if e.args[0] not in (EINTR, EWOULDBLOCK, ENOBUFS):', 'if e.args[0] not in (EWOULDBLOCK, ENOBUFS):'), ['bytes-lost', 'closed-without-request']),
+        ('serverwide-close-does-not-wait', 'server', lambda: mutate(SK.Server, 'close', 'for sock in socks:\n        if not self._buffers.get(sock):\n            self._close(sock)', 'for client in socks:\n        if not self._buffers.get(sock):\n            self._close(client)\n            continue\n        sock = client\n        if False:\n            pass'), None),
         ('client-tail-dropped', 'client', lambda: mutate(SK.Client, '_write', 'self._buffer.appendleft(data[nbytes:])', 'pass'), ['bytes-lost']),
         ('file-writer-kept', 'file', lambda: mutate(FI.File, '_File__on_write', 'elif self._poller.isWriting(self._fd):', 'elif False:'), ['writer-interest-not-dropped', 'never-drains']),
     ]
